@@ -130,7 +130,17 @@ def fmt_part(I, arg):
         return ("sub", v)
     if isinstance(v, Opaque):
         return ("pay", Payload("str", range(32, 127), Sym("opq_len", (), "usize", 0, 4096), origin="opaque"))
-    raise I.unanalysable("Display of %s value %r" % (ty, v))
+    if isinstance(v, Agg) and v.adt not in ("tuple", "array"):
+        # Display of a user-defined type: some printable text (what it says is irrelevant unless it is emitted, and then the
+        # emission grammar sees an unknown printable payload)
+        return ("pay", Payload("str", range(32, 127), Sym("disp_len", (), "usize", 0, 4096), origin="display_of_adt"))
+    if isinstance(v, FmtArguments):
+        # `{}` of a format_args!() value: the nested text
+        sub = []
+        for p in v.parts:
+            sub.append(p)
+        return ("sub", Bytes([q if q[0] != "sub" else ("pay", Payload("str", range(32, 127), Sym("sub_len", (), "usize", 0, 4096), origin="nested")) for q in sub], True))
+    raise I.unanalysable("Display of %s value %s" % (ty, type(v).__name__))
 
 
 @model("std::fmt::Arguments::<'a>::from_str", "std::fmt::Arguments::<'a>::from_str_nonconst")
@@ -382,6 +392,29 @@ def _splitn(I, f, a):
     return AbstractSplitN(v, ch, charset_of(I, v))
 
 
+@model("core::str::<impl str>::split_once")
+def _split_once(I, f, a):
+    """s.split_once(c): None when c does not occur, else (text before the first c, rest)"""
+    v = as_str(I, a[0])
+    ch = a[1]
+    if not isinstance(ch, int):
+        raise I.unanalysable("split_once(%r)" % (ch,))
+    if lit_only(v):
+        b = lit_value(v)
+        sep = chr(ch).encode()
+        if sep not in b:
+            return none()
+        x, y = b.split(sep, 1)
+        mk = lambda t: Ref(Box_(Bytes([("lit", t)] if t else [], True), "piece"), ())
+        return some(Agg("tuple", None, [mk(x), mk(y)]))
+    cs = charset_of(I, v)
+    if ch not in cs or I.run.choose(2, "split_once finds the separator") == 0:
+        return none()
+    a0 = Bytes([("pay", Payload("str", set(cs) - {ch}, Sym("piece_len", (), "usize", 0, 1 << 16), origin="split_once0"))], True)
+    a1 = Bytes([("pay", Payload("str", cs, Sym("piece_len", (), "usize", 0, 1 << 16), origin="split_once1"))], True)
+    return some(Agg("tuple", None, [Ref(Box_(a0, "piece"), ()), Ref(Box_(a1, "piece"), ())]))
+
+
 @model("core::str::<impl str>::lines")
 def _lines(I, f, a):
     v = as_str(I, a[0])
@@ -396,6 +429,20 @@ def _replace(I, f, a):
     v = as_str(I, a[0])
     pat = a[1]
     to = as_str(I, a[2])
+    if not isinstance(pat, int) and lit_only(to):
+        # multi-character pattern: nothing is known about WHICH occurrences of its characters are rewritten, so the result is
+        # an unescaped string over the old characters plus those of the replacement, at least as long as before
+        try:
+            pv = lit_value(as_str(I, pat))
+        except Unanalysable:
+            pv = None
+        if pv is not None and len(pv) >= 1:
+            tb = lit_value(to)
+            cs = set(charset_of(I, v)) | set(tb)
+            lo, hi = bounds(bytes_len(I, v)) if is_sym(bytes_len(I, v)) else (bytes_len(I, v),) * 2
+            grow = max(1, (len(tb) + len(pv) - 1) // len(pv))
+            ln = Sym("replaced_len", (), "usize", lo if len(tb) >= len(pv) else 0, hi * grow)
+            return Bytes([("pay", Payload("str", cs, ln, origin="replace_multi:%d" % v.src_id))], True)
     if not isinstance(pat, int) or not lit_only(to):
         raise I.unanalysable("replace with non-constant pattern")
     pb = chr(pat).encode()
